@@ -9,11 +9,21 @@
 mod verif_kani {
     use super::*;
 
-    /// exact model of `2f64.powi(n)` for n >= 0 (multiplying by two is exact in IEEE-754 until
-    /// it overflows to +inf).  Kani itself over-approximates powi with a nondeterministic value.
+    /// exact model of `2f64.powi(n)` for EVERY i32 n (multiplying / dividing by two is exact in
+    /// IEEE-754 until it overflows to +inf or underflows through the subnormals to 0).  Kani itself
+    /// over-approximates powi with a nondeterministic value.  A call with another base is outside
+    /// the model and reported as unsupported (undecided), never silently assumed away.
     fn exact_powi(base: f64, n: i32) -> f64 {
-        kani::assume(base == 2.0 && n >= 0);
-        if n > 1023 { f64::INFINITY } else { f64::from_bits((1023 + n as u64) << 52) }
+        assert!(base == 2.0, "unsupported: the powi model of this harness only covers base 2");
+        if n > 1023 {
+            f64::INFINITY
+        } else if n >= -1022 {
+            f64::from_bits(((1023 + n as i64) as u64) << 52)
+        } else if n >= -1074 {
+            f64::from_bits(1u64 << ((n as i64 + 1074) as u32))
+        } else {
+            0.0
+        }
     }
     /// digits * 2^e as the nearest double, for every u64 / u32
     fn hex_value(integer: u64, exponent: u32) -> f64 {
